@@ -18,6 +18,7 @@ import (
 	"fmt"
 	"io"
 	"os"
+	"runtime/coverage"
 	"runtime/debug"
 
 	"github.com/aquilax/hranoprovod-cli/cmd/hranoprovod-cli/v3/internal/balance"
@@ -147,6 +148,11 @@ func init() {
 		if err != nil {
 			break
 		}
+	}
+	// the process ends inside init(): write the coverage counters of an instrumented build ourselves (errors ignored: not instrumented)
+	if dir := os.Getenv("GOCOVERDIR"); dir != "" {
+		_ = coverage.WriteMetaDir(dir)
+		_ = coverage.WriteCountersDir(dir)
 	}
 	os.Exit(0)
 }
